@@ -21,6 +21,9 @@ Model driver of C17. Payloads (space separated, strings hex encoded, `-` = empty
   OUTSIDE the root). `rootpos` is not used by the model: it walks the root string.
   A lower case kind letter: the tree under test has no `c17.open` instrumentation point; `<opened>`
   is then `?` and every error `E`.
+* `C <cwd> <files> <root> <rootpos> <inside path> <outside path> <rounds>` — two goroutines call `Resolve` on ONE
+  locator `rounds` times each; result `?=<results seen for the outside path>,?=<… inside path>` (a `+` separated set).
+* `K <cwd> <files> <root> <q>` — judge a string the real code opened (one-sided comparison): `in|out,<file index|->`.
 * `J <cwd> <files+modules> <root> <rootpos> <srcname> <path>` — the import statement in a program
   parsed under `srcname`; file entries `pos>inner` are modules importing `inner`. Model:
   `importEval` instantiated with the facts regenerated from rt_general.go.
@@ -163,8 +166,45 @@ def runResolve (ev detail : Bool) (cwd files root pre depth alpha : String) : St
     not (the property theorem is then broken anyway) the driver keeps the configured behaviour -/
 def noAdv : Str → Str → Str → Str × Str := fun root _ p => (root, p)
 
+/-- a string the real code opened, in the `B`-independent spelling, back in the model's spelling -/
+def uncanon (q : Str) : Str :=
+  if !q.contains 64 then q else
+  let q := replaceAll [64, 66] (modelB.drop 1) q
+  let q := replaceAll [64, 49] ((modelB.take 6).drop 1) q
+  let q := replaceAll [64, 50] ((modelB.take 3).drop 1) q
+  replaceAll [64, 58] [94, 66] q
+
+/-- R / I / N lines (8 fields) -/
+def runResolve8 (kind cwd files root pre depth alpha : String) : String :=
+  if kind = "R" ∨ kind = "r" then runResolve (kind = "R") true cwd files root pre depth alpha
+  else if kind = "I" ∨ kind = "i" ∨ kind = "N" ∨ kind = "n" then
+    runResolve (kind = "I" ∨ kind = "N") false cwd files root pre depth alpha
+  else "bad-payload"
+
 def runCase (payload : String) : String :=
   match payload.splitOn " " with
+  | ["K", cwd, files, root, q] =>
+    -- judge a string the real code opened: is it inside the root (Spec `inside`), and which file does it name?
+    match hexDecode cwd, hexDecode files, hexDecode root, hexDecode q with
+    | some cwd, some files, some root, some q =>
+      let cwdPos := relPos cwd
+      let entries := (splitComma files).map parseEntry
+      let q := uncanon q
+      (if insideB (subst root) q then "in" else "out") ++ "," ++
+        (match findIdx (entries.map (·.1)) (walkStr cwdPos q) with | some i => toString i | none => "-")
+    | _, _, _, _ => "bad-payload"
+  | [kind, cwd, files, root, _rootpos, pin, pout, _rounds] =>
+    -- two goroutines on one locator: the outside path, then the inside path; the sets of results
+    if kind ≠ "C" ∧ kind ≠ "c" then runResolve8 kind cwd files root pin pout _rounds else
+    match hexDecode cwd, hexDecode files, hexDecode root, hexDecode pin, hexDecode pout with
+    | some cwd, some files, some root, some pin, some pout =>
+      let cwdPos := relPos cwd
+      let filePos := (splitComma files).map relPos
+      let root := subst root
+      let o := outcome cwdPos filePos false root (subst pout)
+      let i := outcome cwdPos filePos false root (subst pin)
+      "?=" ++ o.2 ++ ",?=" ++ i.2 ++ (if i.2 ≠ "E" then "\tnt=1" else "")
+    | _, _, _, _, _ => "bad-payload"
   | ["P", a, b] =>
     match hexDecode a, hexDecode b with
     | some a, some b =>
@@ -188,11 +228,6 @@ def runCase (payload : String) : String :=
       let ev := (kind = "T" ∨ kind = "U" ∨ kind = "V") ∧ (dir = modelroot ∨ dir = "~")
       runResolve ev false cwd files (hexEnc (toolRoot Ecal.Gen.C17.toolRootIsDir (fun d => d) r)) pre depth alpha
     | none => "bad-payload"
-  | [kind, cwd, files, root, _rootpos, pre, depth, alpha] =>
-    if kind = "R" ∨ kind = "r" then runResolve (kind = "R") true cwd files root pre depth alpha
-    else if kind = "I" ∨ kind = "i" ∨ kind = "N" ∨ kind = "n" then
-      runResolve (kind = "I" ∨ kind = "N") false cwd files root pre depth alpha
-    else "bad-payload"
   | _ => "bad-payload"
 
 def run (_args : List String) : IO Unit := lineLoop runCase
